@@ -51,11 +51,15 @@ def load_prop(pid):
     mod = importlib.import_module(f"vlib.props.{pid}")
     return mod.PROP
 
-def shrink(prop, case, fails):
-    """greedy shrinking with the property's own candidate generator; fails(case)->bool"""
+def shrink(prop, case, fails, budget_s=120.0):
+    """greedy shrinking with the property's own candidate generator; fails(case)->bool.
+    Bounded in time: reporting the violation matters more than the smallest witness."""
     cur = case
+    deadline = time.time() + budget_s
     for _ in range(200):
         for cand in prop.shrink_candidates(cur):
+            if time.time() > deadline:
+                return cur
             try:
                 if fails(cand):
                     cur = cand; break
@@ -178,7 +182,7 @@ def run_check(pid, tier="quick", seed=0, replay=None):
         def fails(c):
             rr = evaluate(prop, [(c, ["shrink"])])[0]
             return not rr["oracle_ok"] and not (prop.known_class(c, rr["impl"]) in known_classes)
-        small = shrink(prop, r["case"], fails) if len(violations) < 3 else r["case"]
+        small = shrink(prop, r["case"], fails) if (len(violations) < 3 and len(r["case"]) < 300000) else r["case"]
         rr = evaluate(prop, [(small, ["shrunk"])])[0]
         path = core.write_replay(pid, seed, nrep, {
             "property": pid, "kind": "failing-input", "case": small, "shrunk_from": r["case"] if small != r["case"] else None,
